@@ -79,6 +79,7 @@ class _Gen:
         self.labels_later = []
         self.counter = 0
         self.kinds = {}
+        self.base_set = False   # '. = X' is a forward skip only once the base is set ('.link' seen)
 
     def fresh(self, prefix):
         self.counter += 1
@@ -105,12 +106,18 @@ class _Gen:
         if c < 0.65 and self.p.nonlinear:
             a, _ = self.small_const_expr(depth + 1)
             op = r.choice(["/ 2", "% 4", "& 7", "_ 1", ">> 1", "| 1", "^ 1", "! 2", "<< 1", "* 2"])
-            return f"<{a}> {op}" if r.random() < 0.5 else f"({a}) {op}", None
+            return f"{self.group(a)} {op}", None
         if c < 0.75:
             a, _ = self.small_const_expr(depth + 1)
-            return f"<{a}>" if r.random() < 0.5 else f"({a})", None
+            return self.group(a), None
         v = r.randrange(0, maxv)
         return self.lit(v), v
+
+    def group(self, a):
+        # '<<a>>' would lex as shift operators: never nest angle brackets directly
+        if self.rng.random() < 0.5 and not a.startswith("<") and not a.endswith(">"):
+            return f"<{a}>"
+        return f"({a})"
 
     def lit(self, v):
         r = self.rng
@@ -211,7 +218,10 @@ class _Gen:
             n = r.choice([1, 1, 2, 3])
             return Stmt("word", ".word " + ", ".join(self.word_expr() for _ in range(n)))
         if c < 0.56:
-            return Stmt("wordlist", ", ".join([self.addr_expr()] + [self.word_expr() for _ in range(r.randrange(0, 3))]))
+            # an implicit word list must not start with 'name <prefix-operator>' (that parses as an instruction)
+            # ... nor with '(' / '<' (after an instruction line that would continue its last operand as a call)
+            first = self.lit(r.randrange(0, 200))
+            return Stmt("wordlist", ", ".join([first] + [self.word_expr() for _ in range(r.randrange(0, 3))]))
         if c < 0.62:
             return Stmt("dword", ".dword " + ", ".join(self.small_const_expr()[0] for _ in range(r.choice([1, 2]))))
         if c < 0.74 and self.p.strings:
@@ -294,7 +304,7 @@ class _Gen:
                 path = f"blob{self.fresh('')}.bin"
                 prog.fs[path] = data
                 st = Stmt("insert", f'insert_file "{path}"', odd_ok=True, data=data)
-            elif c < 0.975 and self.p.skips and not in_repeat:
+            elif c < 0.975 and self.p.skips and not in_repeat and self.base_set:
                 st = Stmt("skip", f". = . + {self.lit(r.choice([0, 1, 2, 3, 8, 64]))}", odd_ok=True)
             elif self.p.include and depth == 0 and not in_repeat:
                 path = f"inc{self.fresh('')}.mac"
@@ -329,6 +339,7 @@ def gen_program(rng, profile=None):
     nfiles = rng.randint(*prof.n_files)
     exported = []
     total_kinds = {}
+    base_set_before = False
     for fi in range(nfiles):
         g = _Gen(rng, prof)
         g.counter = fi * 100
@@ -345,6 +356,12 @@ def gen_program(rng, profile=None):
             base = rng.choice([0o1000, 0o2000, 0, 0o100, 0o1001, 0o40000, 0o157776])
             form = rng.choice([".link", ". ="]) if True else ".link"
             stmts.append(Stmt("link", f"{form} {oct(base)[2:]}" if form == ".link" else f". = {oct(base)[2:]}", base=base))
+            g.base_set = True
+            if base % 2:
+                stmts.append(Stmt("even", ".even"))
+        if fi > 0 and base_set_before:
+            g.base_set = True
+        base_set_before = base_set_before or g.base_set
         n = rng.randint(*prof.n_stmts)
         stmts += g.block(n, 0, False, fi, prog)
         # define what was promised
